@@ -5,10 +5,12 @@ inductive HOp where
   | w (n : Nat)
   | s
   | r
+  | z
 
 def parseHOp (s : String) : Option HOp :=
   if s == "s" then some .s
   else if s == "r" then some .r
+  else if s == "z" then some .z
   else if s.startsWith "w" then (s.drop 1).toString.toNat?.map .w
   else none
 
@@ -22,6 +24,7 @@ def runHist {A : Alg} : Digest A → List HOp → Bytes → List String → Opti
     if n > data.length then none else runHist (d.write (data.take n)) rest (data.drop n) acc
   | d, .s :: rest, data, acc => runHist d rest data (toHex d.sum :: acc)
   | d, .r :: rest, data, acc => runHist d.reset rest data acc
+  | d, .z :: rest, data, acc => runHist d rest data (s!"z{d.sizeOf}.{d.blockSizeOf}" :: acc)
 
 def showOuts (l : List String) : String := if l.isEmpty then "none" else "|".intercalate l
 
@@ -47,7 +50,7 @@ def histOn (A : Alg) (d0 : Option (Digest A)) (o : Op) : String :=
         | some outs => showOuts outs
     | _, _, _ => "bad-op"
 
-/-- `hist alg=b|s path=… ctor=new|new512|new384|new256|new128 size=N key=HEX init=HEX|- ops=w5,s,r,… data=HEX`
+/-- `hist alg=b|s path=… ctor=new|new512|new384|new256|new128|reg512|reg384|reg256 (reg* = crypto.Hash.New(), unkeyed) size=N key=HEX init=HEX|- ops=w5,s,r,z,… data=HEX` (`z` = Size().BlockSize())
     `sum alg=b|s size=N data=HEX` -/
 def handle (line : String) : String :=
   let o := parseOp line
@@ -59,14 +62,17 @@ def handle (line : String) : String :=
         else if ctor == "new512" then some 64
         else if ctor == "new384" then some 48
         else if ctor == "new256" then some 32
+        else if ctor == "reg512" then some 64
+        else if ctor == "reg384" then some 48
+        else if ctor == "reg256" then some 32
         else none
       (match size? with
        | none => "bad-op"
-       | some sz => histOn B (newDigest B sz key) o)
+       | some sz => histOn B (newDigest B sz (if ctor.startsWith "reg" then [] else key)) o)
     | some "s", some ctor, some _, some key =>
       if ctor == "new256" then histOn S (newDigest S 32 key) o
-      else if ctor == "new128" then
-        histOn S (if key.isEmpty then none else newDigest S 16 key) o
+      else if ctor == "reg256" then histOn S (newDigest S 32 []) o
+      else if ctor == "new128" then histOn S (new128 S key) o
       else "bad-op"
     | _, _, _, _ => "bad-op"
   else if o.cmd == "sum" then
